@@ -134,5 +134,97 @@ def h_labels_unclustered(I, fi):
 COVERS = ["labels.unclustered", "labels.fill-in", "labels.no-fill-in", "labels.nothing-labelled"]
 
 
+# ----------------------------------------------------------------------------------------------------------- graph conversion (process_trace/utils.py)
+
+
+def h_convert(I, fi):
+    """convert_rustworkx_to_networkx on a directed graph: every edge becomes an edge between the NAMES of its end points (weight kept), every node -
+    also one without any edge (the root of a tree without clones, finding F09) - exists in the result and carries its TreeNode's dictionary."""
+    from pyvc.builtins_model import ExternalClass
+    P = I.P
+    ne, nn = alg.sym("n_edges", "Int"), alg.sym("n_nodes", "Int")
+    P.assume(z3.And(P.z(ne) >= 0, P.z(nn) >= 1))
+    log = []
+
+    class Pay(Model):
+        def __init__(self, key):
+            self.key = key
+
+        def a_node_id(self, I_):
+            return ("name-of", self.key)
+
+        def m_to_dict(self, I_):
+            return ("dict-of", self.key)
+
+    class RG(Model):
+        py_classes = ("PyDiGraph",)
+
+        def m_weighted_edge_list(self, I_):
+            return SymSeq("edges", ne, lambda e: (alg.raw_app("src", I_.to_num(e), sort="Int"), alg.raw_app("dst", I_.to_num(e), sort="Int"), ("weight", I_.to_num(e).key())))
+
+        def getitem(self, I_, idx):
+            return Pay(("idx", I_.to_num(idx).key()))
+
+        def m_nodes(self, I_):
+            return SymSeq("nodes", nn, lambda k: Pay(("node", I_.to_num(k).key())))
+
+    class Attr(Model):
+        def __init__(self, nd):
+            self.nd = nd
+
+        def m_update(self, I_, d):
+            log.append(("attrs", self.nd, d))
+
+    class NodesV(Model):
+        def getitem(self, I_, nd):
+            return Attr(nd)
+
+    class NXG(Model):
+        def __init__(self, edges):
+            self.edges = edges
+
+        def m_add_node(self, I_, nd):
+            log.append(("add-node", nd))
+
+        def a_nodes(self, I_):
+            return NodesV()
+
+    class NXM(Model):
+        def m_DiGraph(self, I_, edges=None):
+            log.append(("digraph", edges))
+            return NXG(edges)
+
+        def m_Graph(self, I_, edges=None):
+            log.append(("undirected", edges))
+            return NXG(edges)
+
+    class RXM(Model):
+        def a_PyGraph(self, I_):
+            return ExternalClass("PyGraph")
+
+    I.registry.globals_override["nx"] = NXM()
+    I.registry.globals_override["rx"] = RXM()
+    I.registry.generic_loops.add(fi.qualname)
+    out = I.call_function(fi, [RG()], {}, force_inline=True)
+    dsl.cover(I, "convert")
+    made = [e for e in log if e[0] in ("digraph", "undirected")]
+    ok = len(made) == 1 and made[0][0] == "digraph" and isinstance(made[0][1], SymSeq) and not P.feasible(P.z(made[0][1].core_len) != P.z(ne)) and isinstance(out, NXG)
+    P.check("convert.directed-graph-from-all-edges", ok, "a directed networkx graph is built from one entry per edge", kind="post")
+    if ok and P.feasible(P.z(ne) > 0):
+        e = alg.sym("e", "Int")
+        P.assume(z3.And(P.z(e) >= 0, P.z(e) < P.z(ne)))
+        a, b, w = made[0][1].core_at(I, e)
+        P.check("convert.edge-by-names", a == ("name-of", ("idx", alg.raw_app("src", e, sort="Int").key())) and b == ("name-of", ("idx", alg.raw_app("dst", e, sort="Int").key())) and w == {"weight": ("weight", e.key())},
+                "edge e connects the names of its source and target and keeps its weight", kind="post")
+    gens = P.ghost.get("generic_indices", [])
+    k = gens[-1] if gens else None
+    rest = [e for e in log if e[0] in ("add-node", "attrs")]
+    okn = k is not None and rest == [("add-node", ("name-of", ("node", k.key()))), ("attrs", ("name-of", ("node", k.key())), ("dict-of", ("node", k.key())))]
+    P.check("convert.every-node-present-with-its-attributes", okn, "every node of the source graph is added by name (also when no edge mentions it) and gets its TreeNode's dictionary", kind="post")
+
+
 def verify_all(ctx, repo, prop="C12"):
     dsl.verify(ctx, repo, dsl.Registry(), prop, PT + ".get_labels_table", h_labels_unclustered, expect_covers=COVERS)
+    dsl.verify(ctx, repo, dsl.Registry(), prop, "phyclone.process_trace.utils.convert_rustworkx_to_networkx", h_convert, expect_covers=["convert"])
+
+
